@@ -34,6 +34,11 @@ def case_from_scenario(sc, rng, variant=0):
         fault["cs"] = rng.randrange(8)
     if sc["kind"] == "stale":
         st = list(sc["stale"])
+        # the model's request multiplexer -> the harness' request multiplexer
+        ridx = sc.get("reqidx", -1)
+        hidx = 0x2000 if sc["op"] == "dl" else 0x2100
+        if len(st) == 8 and st[0] >> 5 in (2, 3) and st[1] + 256 * st[2] == ridx:
+            st[1], st[2] = hidx & 0xFF, hidx >> 8
         fault["d"] = st
     if sc["op"] == "dl":
         d = payload(rng, n)
@@ -58,6 +63,8 @@ def extra_cases(rng, tier):
     """stale frames before the request, long transfers with seeded fault placement"""
     cases = []
     stale = [[0x60, 0x34, 0x12, 1, 0, 0, 0, 0], [0x43, 0x34, 0x12, 1, 9, 9, 9, 9], [0x41, 0x34, 0x12, 1, 9, 0, 0, 0],
+             [0x43, 0x00, 0x21, 1, 9, 9, 9, 9], [0x43, 0x34, 0x12, 0, 9, 9, 9, 9], [0x41, 0x00, 0x21, 7, 9, 0, 0, 0],
+             [0x60, 0x00, 0x20, 3, 0, 0, 0, 0],
              [0x20] + [0] * 7, [0x30] + [0] * 7, [0x01, 9, 9, 9, 9, 9, 9, 9], [0x10, 9, 0, 0, 0, 0, 0, 0],
              [0x80, 0x34, 0x12, 1, 0, 0, 4, 5]]
     for s in stale:
@@ -72,10 +79,10 @@ def extra_cases(rng, tier):
     for i in range(reps):
         n = rng.choice([rng.randrange(16, 200), rng.randrange(16, 1000)])
         steps = 1 + (n + 6) // 7
-        kind = rng.choice(["drop", "late", "dup", "abort", "toggle", "cs", "mux", "stale"])
+        kind = rng.choice(["drop", "late", "dup", "abort", "toggle", "cs", "mux", "muxsub", "stale"])
         sc = {"op": rng.choice(["dl", "ul"]), "n": n, "decl": rng.random() < 0.6,
               "force": False, "kind": kind, "step": rng.randrange(0, steps + 1),
-              "stale": rng.choice(stale[:7])}
+              "stale": rng.choice(stale[:11])}
         cases.append(case_from_scenario(sc, rng, variant=rng.randrange(2)))
     return cases
 
